@@ -71,3 +71,121 @@ Proof.
   - cbn. intros o a b H. repeat (destruct H as [H|H]; [injection H as <- <- <-; reflexivity|]). destruct H.
   - vm_compute. reflexivity.
 Qed.
+
+(* ======================= the two TEXT formats ===================================
+   Modelled in TextFmt.v: FlatTextRenderer / NestedTextRenderer (message, sections,
+   'name = value' lines, template-data lines) and utils.flat_text_to_flat_json /
+   nested_text_to_flat_json with section_text_to_flat_json and the two subsets_*
+   loops.  EXTERNAL, universally quantified: Python's repr ('{!r}') and
+   ast.literal_eval; the side conditions (TextFmtSpec.v, TextFmtFlat.v,
+   TextFmtNested.v) say what the parsers need of them. *)
+From PBK Require Import TextFmt TextFmtSpec TextFmtFlat TextFmtExamples.
+
+(* 5. flat text: every value starts at column 81 of its line, in both line formats *)
+Theorem C09_flat_text_value_column :
+  forall (repr : pyv -> str) links idx c,
+    exists pre, flat_line repr links idx c = pre ++ repr (fobj c) /\ length pre = 81%nat /\
+                exists c0 t, pre = c0 :: t /\ TextFmtStrings.fw_char c0 = true.
+Proof. exact flat_line_column. Qed.
+Print Assumptions C09_flat_text_value_column.
+
+(* 6. flat text -> flat JSON: for every message (any sections, parameters, subsets, values,
+      links, descriptor texts) whose lines hold no line break, whose 'name = value' lines
+      split in two at ' = ', whose printed objects literal_eval reads back, and whose
+      template data is the last parameter of a section that is followed by another one *)
+Theorem C09_flat_text_roundtrip :
+  forall (repr : pyv -> str) (leval : str -> result pyv) (m : message (list fsubset)),
+    flat_message_ok repr leval m ->
+    flat_text_to_flat_json leval (render_flat_text repr m) = Ok (flat_json_of flat_td_values m).
+Proof. exact flat_text_roundtrip. Qed.
+Print Assumptions C09_flat_text_roundtrip.
+
+(* non-vacuity: four sections; three subsets (the last empty); a flag-table tuple, a bytes
+   value containing " b'", a bitmap-linked line, a 100-character descriptor text, None *)
+Example C09_flat_text_nonvacuous :
+  flat_message_ok toy_repr (toy_leval ex_flat_univ) ex_flat_msg /\
+  exists j, flat_text_to_flat_json (toy_leval ex_flat_univ) (render_flat_text toy_repr ex_flat_msg) = Ok j /\
+            length j = 4%nat.
+Proof. split; [exact ex_flat_ok|]. eexists. split; [exact ex_flat_roundtrip|reflexivity]. Qed.
+
+From PBK Require Import TextFmtNestedTree TextFmtNestedTop TextFmtWire TextFmtC09.
+
+(* 7. the attribute relation the wiring builds: every attribute index is below next_index, and a
+      node that carries an associated field is never itself an attribute (so '-> A...' lines occur
+      only directly below a member line, where insert(-1, v) puts the value before its owner) *)
+Theorem C09_wire_attrs_text :
+  forall ndesc vals links T nodes s,
+    wire ndesc vals links T = Ok (nodes, s) ->
+    attrs_in_range (x_next s) (x_attrs s) = true /\ attrs_depth_ok (x_attrs s) = true.
+Proof. exact wire_attrs_text. Qed.
+Print Assumptions C09_wire_attrs_text.
+
+(* 8. nested text -> flat JSON, for any tree satisfying the structural conditions
+      (nsubset_tree_ok: whole repetitions, flat order 0..n-1, the two facts of (7)) and the text
+      conditions (nsubset_text_ok): per flat index str(descriptor) starts with none of
+      blank . # 3 < -, the description holds no line break, repr(value) holds no blank unless it is
+      b'...' / b"..." without an inner ' b' + quote, literal_eval reads it back; an attribute's
+      label starts with 'A' exactly when it is an associated field; every no-value line is one
+      the parser passes over.  Any depth of attribute rendering (S k). *)
+Theorem C09_nested_text_roundtrip :
+  forall (repr : pyv -> str) (leval : str -> result pyv) k (m : message (list nsubset)),
+    nested_message_ok repr leval m ->
+    nested_text_to_flat_json leval (render_nested_text repr (S k) m) = Ok (flat_json_of nested_td_values m).
+Proof. exact nested_text_roundtrip. Qed.
+Print Assumptions C09_nested_text_roundtrip.
+
+(* 9. the same for subsets given by TemplateData.wire (any template, values, links): only the
+      text conditions remain; the result is the flat JSON, i.e. the decoded values in flat order
+      with the associated field before its owner and the replication factor before the repetitions *)
+Theorem C09_nested_text_roundtrip_wired :
+  forall (repr : pyv -> str) (leval : str -> result pyv) k (m : message (list nsubset)),
+    nested_wired_message_ok repr leval m ->
+    nested_text_to_flat_json leval (render_nested_text repr (S k) m) = Ok (flat_json_of nested_td_values m).
+Proof. exact nested_text_roundtrip_wired. Qed.
+Print Assumptions C09_nested_text_roundtrip_wired.
+
+(* non-vacuity of (8) and (9): 204008 031021 012001 204000 / 101000 031001 012001 / 222000 236000
+   101002 031031 / 033007 033007 / 001015 with two bitmap links: an associated field, quality values
+   attached to a plain element and to a member of the delayed replication, two subsets *)
+Example C09_nested_text_nonvacuous :
+  exists nodes s,
+    wire 13 exn_vals exn_links exn_T = Ok (nodes, s) /\ x_next s = 13%N /\
+    x_attrs s = [(1, 0, false); (2, 1, true); (2, 10, false); (4, 11, false)]%N /\
+    nested_message_ok toy_repr (toy_leval exn_univ) (exn_msg nodes s) /\
+    nested_wired_message_ok toy_repr (toy_leval exn_univ) (exn_msg nodes s) /\
+    nested_text_to_flat_json (toy_leval exn_univ) (render_nested_text toy_repr 3 (exn_msg nodes s))
+    = Ok (flat_json_of nested_td_values (exn_msg nodes s)).
+Proof.
+  destruct exn_wire_ok as (nodes & s & E & Hn & Ha). exists nodes, s.
+  split; [exact E|]. split; [exact Hn|]. split; [exact Ha|].
+  split; [exact (exn_ok nodes s E)|]. split; [exact (exn_wired_ok nodes s E)|].
+  apply nested_text_roundtrip. exact (exn_ok nodes s E).
+Qed.
+
+(* 10. D21, refuted: an element skipped by 221YYY is printed '<id> <name>' without a value; the
+       parser takes the last word of the name for a value.  Witness: 221002 012001 001001 with the
+       value [7]; all other side conditions hold, only nv_ok of the line '012001 TEMP' fails, and
+       the conversion raises (ValueError from literal_eval). *)
+Theorem C09_nested_text_221_refuted :
+  exists nodes s,
+    wire 1 exd_vals [] exd_T = Ok (nodes, s) /\ x_next s = 1%N /\
+    nodes = WCons (WNoValue 221002) (WCons (WNoValue 12001) (WCons (WValue 0) WNil)) /\
+    nsubset_tree_ok (exd_sub nodes s) /\
+    (forall i, (i < 1)%N -> idx_ok toy_repr (toy_leval [PyV (VInt 7)]) (exd_sub nodes s) i) /\
+    nv_ok exn_nvstr 221002 = true /\ nv_ok exn_nvstr 12001 = false /\
+    nested_text_to_flat_json (toy_leval [PyV (VInt 7)]) (render_nested_text toy_repr 3 (exd_msg nodes s)) = Err EValue.
+Proof. exact exd_refuted. Qed.
+Print Assumptions C09_nested_text_221_refuted.
+
+(* 11. refuted: a message without any subset.  Both text renderers add one empty line for the
+       template data (''.split('\n') == ['']); section_text_to_flat_json cannot split it at ' = '
+       (ValueError), while the flat JSON holds [] for the template data. *)
+Theorem C09_text_zero_subsets_refuted :
+  sections_shape (m_sections exz_flat) = true /\
+  pval_line_ok nm_stop (toy_repr (PyV (VInt 7))) = true /\
+  toy_leval [PyV (VInt 7)] (toy_repr (PyV (VInt 7))) = Ok (PyV (VInt 7)) /\
+  flat_text_to_flat_json (toy_leval [PyV (VInt 7)]) (render_flat_text toy_repr exz_flat) = Err EValue /\
+  nested_text_to_flat_json (toy_leval [PyV (VInt 7)]) (render_nested_text toy_repr 3 exz_nested) = Err EValue /\
+  flat_json_of flat_td_values exz_flat = [[ITemplate []]; [IVal (PyV (VInt 7))]].
+Proof. exact exz_refuted. Qed.
+Print Assumptions C09_text_zero_subsets_refuted.
